@@ -1797,6 +1797,10 @@ class Transaction(object):
                     n_sigs_to_insert -= 1
             if n_sigs_to_insert:
                 for sig in self.inputs[tid].signatures:
+                    if sig.public_key and sig.public_key.public_byte in pub_key_list and \
+                            sig_domain[pub_key_list.index(sig.public_key.public_byte)] != '':
+                        # Already on its position, or replaced by a new signature of the same key
+                        continue
                     free_positions = [i for i, s in enumerate(sig_domain) if s == '']
                     for pos in free_positions:
                         sig_domain[pos] = sig
